@@ -141,6 +141,43 @@ def rich_get_specs(rng):
     return specs
 
 
+def unreadable_specs(rng, quick):
+    """An input that does not load: every tool must fail with its load status and deliver nothing."""
+    specs = []
+    texts = [t for _, t in INVALID] if not quick else [t for _, t in rng.sample(INVALID, 6)]
+    good = "---\na: 1\nb: [1, 2]\n"
+    for text in texts:
+        for delivery in ("file", "stdin"):
+            tail, files, stdin = _deliver("bad.yaml", text, delivery, rng)
+            specs.append({"tool": "get", "argv": ["--query=a"] + tail, "files": files, "stdin": stdin, "o": o_of(), "exp": {"k": "", "n": 0},
+                          "info": False, "cls": "unreadable", "delivery": delivery, "want": {"cls": "unreadable"}})
+            tail, files, stdin = _deliver("bad.yaml", text, delivery, rng)
+            specs.append({"tool": "set", "argv": ["--change=a", "--value=1"] + tail, "files": files, "stdin": stdin, "o": o_of(),
+                          "exp": {"k": "", "n": 0}, "info": False, "cls": "unreadable", "delivery": delivery, "target": "bad.yaml",
+                          "want": {"final": None, "doc0": None}})
+            for first in (True, False):
+                files = {"good.yaml": good}
+                names = ["bad.yaml", "good.yaml"] if first else ["good.yaml", "bad.yaml"]
+                stdin = None
+                if delivery == "file":
+                    files["bad.yaml"] = text
+                else:
+                    stdin = text
+                    names[names.index("bad.yaml")] = "-"
+                specs.append({"tool": "merge", "argv": ["--nostdin"] + names, "files": dict(files), "stdin": stdin, "o": o_of(),
+                              "exp": {"k": "", "n": 0}, "info": False, "cls": "unreadable:%s" % ("first" if first else "later"),
+                              "delivery": "ff" if delivery == "file" else ("-f" if first else "f-"), "output": None, "docfmt": "auto",
+                              "want": {"out": None, "code": 4 if first else 3}})
+                specs.append({"tool": "diff", "argv": names, "files": dict(files), "stdin": stdin, "o": o_of(), "exp": {"k": "", "n": 0},
+                              "info": False, "cls": "unreadable", "delivery": "ff" if delivery == "file" else ("-f" if first else "f-"),
+                              "want": {"code": 1}})
+            tail, files, stdin = _deliver("bad.yaml", text, delivery, rng)
+            specs.append({"tool": "paths", "argv": ["--nostdin", "--search==1"] + tail if delivery == "file" else ["--search==1"] + tail,
+                          "files": files, "stdin": stdin, "o": o_of(), "exp": {"k": "", "n": 0}, "info": False, "cls": "unreadable",
+                          "delivery": delivery, "want": {"code": 3}})
+    return specs
+
+
 def _round_robin(groups, rng, count):
     keys = sorted(groups, key=repr)
     for k in keys:
@@ -260,9 +297,13 @@ MERGE_DELIVERIES = ("ff", "f-", "-f", "fi")
 def merge_specs(recs, rng, count, quick, seed):
     from harness import cliobs
     groups = {}
+    ngroups = {}
+    for rec in recs:
+        ngroups[rec["key"]] = ngroups.get(rec["key"], 0) + 1
     for rec in recs:
         res = rec["group"]["res"]
-        groups.setdefault((rec["l"][0]["k"], rec["r"][0]["k"], res["ok"], res["info"]), []).append(rec)
+        # (a pair with several result groups is one whose result depends on the policy options)
+        groups.setdefault((rec["l"][0]["k"], rec["r"][0]["k"], res["ok"], res["info"], min(ngroups[rec["key"]], 3)), []).append(rec)
     specs = []
     for rec in _round_robin(groups, rng, max(1, count // 4)):
         res = rec["group"]["res"]
@@ -645,6 +686,10 @@ def _judge_get(spec, ob):
             if not good:
                 P.append(("content", "printed %r, expected the JSON %s" % (lines[0][:200], json.dumps(w["json"]))))
         return P, len(lines), "none"
+    if w["cls"] == "unreadable":
+        if ob["code"] != 1 or lines:
+            P.append(("exit", "the document does not load; exit status %s, lines %r" % (ob["status"], lines[:3])))
+        return P, len(lines), "none"
     doc = w["doc"]
     if w["cls"] == "matched":
         if ob["code"] != 0:
@@ -710,8 +755,8 @@ def _judge_set(spec, ob):
                 P.append(("document", "result %r does not reload to the model's document %s" % (
                     text[:200], absdoc.concretise(w["final"], "flow").strip())))
     else:
-        if ob["code"] == 0:
-            P.append(("exit", "the model refuses (%s) but exit status 0" % spec["cls"]))
+        if ob["code"] == 0 or (spec["cls"] == "unreadable" and ob["code"] != 1):
+            P.append(("exit", "the model refuses (%s) but exit status %s" % (spec["cls"], ob["status"])))
         if not ob["unchanged"] or ob["touched"] or (spec["stdin"] is not None and ob["out"].strip()):
             P.append(("touched", "a refused run (exit %s) wrote %s / printed %r" % (ob["status"], ob["touched"], ob["out"][:80])))
     return P, 0, written
@@ -920,8 +965,8 @@ def _judge_paths(spec, ob):
     w = spec["want"]
     P = []
     if "code" in w:
-        if ob["code"] != w["code"]:
-            P.append(("exit", "expected exit status %d, got %s" % (w["code"], ob["status"])))
+        if ob["code"] != w["code"] or ob["lines"]:
+            P.append(("exit", "expected exit status %d and no result, got %s, %r" % (w["code"], ob["status"], ob["lines"][:3])))
         return P, len(ob["lines"]), "none"
     try:
         lib = library_paths(spec)
@@ -1008,7 +1053,10 @@ def _generators(ctx):
         t.join()
     if errs:
         raise errs[0]
-    res["e"] = [h for h in res["e"] if len(h["hist"]) == 1]
+    # TLC's workers write the cases in no particular order: sort, so that a seed names the same runs every time
+    res["q"] = sorted(((d, sorted(cs, key=lambda c: (c["dot"], c["sl"]))) for d, cs in res["q"]), key=lambda x: json.dumps(x[0], sort_keys=True))
+    res["e"] = sorted((h for h in res["e"] if len(h["hist"]) == 1), key=lambda h: json.dumps(h, sort_keys=True))
+    res["m"] = sorted(res["m"], key=lambda r: (r["key"], json.dumps(r["group"], sort_keys=True)))
     return res
 
 
@@ -1025,122 +1073,145 @@ def _validate_traces(ctx, records, name):
         return {v["id"]: v for v in json.load(fh)}
 
 
-def run(ctx):
-    from harness import cliobs
-    table, _ = _tlc_table(ctx)
-    gen = _generators(ctx)
-    per = 2000 if ctx.quick else 30000
-    rngs = {t: random.Random(ctx.seed * 1000003 + i) for i, t in enumerate(TOOLS)}
-    specs = []
-    specs += get_specs(gen["q"], rngs["get"], per, ctx.quick, ctx.seed)
-    specs += set_specs(gen["e"], gen["q"], rngs["set"], per, ctx.quick, ctx.seed)
-    specs += merge_specs(gen["m"], rngs["merge"], per, ctx.quick, ctx.seed)
-    specs += diff_specs(gen["m"], rngs["diff"], per, ctx.quick, ctx.seed)
-    vspecs, dropped = validate_specs(gen["q"], rngs["validate"], per, ctx.quick, ctx.seed)
-    specs += vspecs
-    specs += paths_specs(gen["q"], gen["e"], rngs["paths"], per, ctx.quick, ctx.seed)
+def _build(tool, gen, rng, per, ctx):
+    if tool == "get":
+        return get_specs(gen["q"], rng, per, ctx.quick, ctx.seed), 0
+    if tool == "set":
+        return set_specs(gen["e"], gen["q"], rng, per, ctx.quick, ctx.seed), 0
+    if tool == "merge":
+        return merge_specs(gen["m"], rng, per, ctx.quick, ctx.seed), 0
+    if tool == "diff":
+        return diff_specs(gen["m"], rng, per, ctx.quick, ctx.seed), 0
+    if tool == "validate":
+        return validate_specs(gen["q"], rng, per, ctx.quick, ctx.seed)
+    return paths_specs(gen["q"], gen["e"], rng, per, ctx.quick, ctx.seed), 0
 
-    _SCRATCH[0] = ctx.path("runs")
-    os.makedirs(_SCRATCH[0], exist_ok=True)
-    items = [(i, s, "inproc", None) for i, s in enumerate(specs)]
-    results = {}
-    for r in querycorpus.pmap(_work, items, chunk=40):
-        results[r["idx"]] = r
 
-    # ---- the process boundary: a sample of the same runs as real processes
-    rs = random.Random(ctx.seed + 77)
-    nsub = 60 if ctx.quick else 500
-    by_tool = {t: [i for i, s in enumerate(specs) if s["tool"] == t] for t in TOOLS}
-    sub_idx = sorted(i for t in TOOLS for i in rs.sample(by_tool[t], min(len(by_tool[t]), nsub // len(TOOLS))))
-    sub_items = [(i, specs[i], "subproc", [e for e in results[i]["events"] if e["ph"] not in ("output", "exit")]) for i in sub_idx]
-    sub_results = {}
-    for r in querycorpus.pmap(_work, sub_items, chunk=4):
-        sub_results[r["idx"]] = r
-    boundary_mismatch = 0
-    for i, sr in sub_results.items():
-        ir = results[i]
-        same = (sr["code"] == ir["code"] and sr["lines"] == ir["lines"] and sr["doc"] == ir["doc"] and sr["touched"] == ir["touched"]
-                and sr["result"] == ir["result"])
-        if not same and not isinstance(ir["status"], str):
-            boundary_mismatch += 1
-            ctx.violation("boundary:%s:%s" % (specs[i]["tool"], specs[i]["cls"]),
-                          _desc(specs[i], sr, "the real process gives exit %s, lines %r, document %s; the in-process run exit %s, lines %r, document %s" % (
-                              sr["code"], sr["lines"][:4], sr["doc"], ir["code"], ir["lines"][:4], ir["doc"])),
-                          {"spec": specs[i], "how": "subproc"})
+def _table_key(spec, tr, k):
+    argsok = not any(e["ph"] == "args" and not e["ok"] for e in tr)
+    valid = not any(e["ph"] == "validate" and not e["ok"] for e in tr)
+    loads = [e["ok"] for e in tr if e["ph"] == "load"]
+    badat = next((j + 1 for j, ok in enumerate(loads) if not ok), 0)
+    return (spec["tool"], spec["o"]["must"], spec["o"]["mode"], argsok, valid, min(badat, 2), k,
+            any(e["ph"] == "work" and e["k"] == "badexpr" for e in tr))
 
-    # ---- verdicts of the projection
-    stats = {t: {"runs": 0, "info": 0, "info_mismatch": 0, "nonzero": 0, "stdin": 0, "json": 0, "crash": 0} for t in TOOLS}
-    outcome_classes = set()
-    for pool in (results, sub_results):
-        for i, r in pool.items():
-            s = specs[i]
-            st = stats[s["tool"]]
-            st["runs"] += 1
-            st["nonzero"] += r["code"] != 0
-            st["stdin"] += s["stdin"] is not None
-            st["json"] += any(n.endswith(".json") for n in s["files"])
-            st["crash"] += isinstance(r["status"], str)
-            outcome_classes.add((s["tool"], s["cls"], s["delivery"], r["code"]))
-            if s["info"]:
-                st["info"] += 1
-                st["info_mismatch"] += bool(r["problems"])
-                continue
-            for kind, text in r["problems"][:1]:
-                if isinstance(r["status"], str):
-                    kind = "crash:" + r["status"].split(":", 1)[1]
-                ctx.violation(_sig(s, kind), _desc(s, r, text), {"spec": s, "how": r["how"]})
 
-    # ---- C->S: the whole batch against YCli
-    records = []
-    for pool, off in ((results, 0), (sub_results, len(specs))):
-        for i, r in sorted(pool.items()):
-            s = specs[i]
-            records.append({"id": i + off, "tool": s["tool"], "o": s["o"], "tr": r["events"], "code": r["code"], "exp": s["exp"]})
+def _flush(ctx, pending, table, tot, accepted, rs):
+    """Validate the pending runs against YCli (Trace_YCli, batches of 20000) and turn the verdicts into findings."""
+    if not pending:
+        return
+    records = [{"id": j, "tool": s["tool"], "o": s["o"], "tr": r["events"], "code": r["code"], "exp": s["exp"]}
+               for j, (s, r) in enumerate(pending)]
     verdicts = {}
     for k in range(0, len(records), 20000):
-        verdicts.update(_validate_traces(ctx, records[k:k + 20000], "trace%02d" % (k // 20000)))
-    rejected = 0
-    want_mismatch = 0
-    for rec in records:
+        tot["batches"] = tot.get("batches", 0) + 1
+        verdicts.update(_validate_traces(ctx, records[k:k + 20000], "trace%02d" % tot["batches"]))
+    tot["records"] += len(records)
+    for rec, (s, r) in zip(records, pending):
         v = verdicts[rec["id"]]
-        i = rec["id"] % len(specs)
-        s = specs[i]
-        r = results[i] if rec["id"] < len(specs) else sub_results[i]
         if not v["ok"]:
-            rejected += 1
-            if not isinstance(r["status"], str) or v["why"] not in ("not-enabled:output", "not-enabled:exit"):
-                ctx.violation("trace:%s:%s:%s" % (s["tool"], v["why"], v["k"] or "-"),
-                              _desc(s, r, "run rejected by YCli at event %d (%s) in pc %s with library outcome %s/%d; the table allows exit %s; events %s" % (
-                                  v["at"], v["why"], v["pc"], v["k"], v["n"], v["codes"], json.dumps(rec["tr"]))),
-                              {"spec": s, "how": r["how"]})
-        elif s["exp"]["k"] and rec["code"] not in v["want"]:
-            want_mismatch += 1
+            tot["rejected"] += 1
+            ctx.violation("trace:%s:%s:%s" % (s["tool"], v["why"], v["k"] or "-"),
+                          _desc(s, r, "run rejected by YCli at event %d (%s) in pc %s with library outcome %s/%d; the table allows exit %s; events %s" % (
+                              v["at"], v["why"], v["pc"], v["k"], v["n"], v["codes"], json.dumps(rec["tr"]))),
+                          {"spec": s, "how": r["how"]})
+            continue
+        # the table emitted by MC_YCli covers the observed outcome class
+        if rec["code"] not in table.get(_table_key(s, rec["tr"], v["k"]), ()):
+            tot["uncovered"] += 1
+        if s["exp"]["k"] and rec["code"] not in v["want"]:
+            tot["want"] += 1
             if s["tool"] == "merge" and s["exp"]["k"] == "mergeerr" and rec["code"] in (14, 32, 42):
                 continue            # a YAML Path error instead of a merge error: still an honest failure
             ctx.violation("table:%s:%s:exit%d" % (s["tool"], s["exp"]["k"], rec["code"]),
                           _desc(s, r, "the model predicts the library outcome %s, for which the table gives exit %s; the run ended with %d (observed outcome %s)" % (
                               s["exp"]["k"], v["want"], rec["code"], v["k"])),
                           {"spec": s, "how": r["how"]})
-    # the table emitted by MC_YCli covers every observed outcome class
-    uncovered = 0
-    for rec in records:
-        v = verdicts[rec["id"]]
-        if v["ok"]:
-            s = specs[rec["id"] % len(specs)]
-            tr = rec["tr"]
-            argsok = not any(e["ph"] == "args" and not e["ok"] for e in tr)
-            valid = not any(e["ph"] == "validate" and not e["ok"] for e in tr)
-            loads = [e["ok"] for e in tr if e["ph"] == "load"]
-            badat = next((j + 1 for j, ok in enumerate(loads) if not ok), 0)
-            key = (s["tool"], s["o"]["must"], s["o"]["mode"], argsok, valid, min(badat, 2), v["k"],
-                   any(e["ph"] == "work" and e["k"] == "badexpr" for e in tr))
-            if rec["code"] not in table.get(key, ()):
-                uncovered += 1
-    # ---- binding self-test: corrupted records must be rejected
     good = [rec for rec in records if verdicts[rec["id"]]["ok"]]
-    rs.shuffle(good)
+    by_tool = {}
+    for rec in good:
+        by_tool.setdefault(rec["tool"], []).append(rec)
+    for t in sorted(by_tool):
+        accepted += rs.sample(by_tool[t], min(len(by_tool[t]), 12))
+    del pending[:]
+
+
+def run(ctx):
+    table, _ = _tlc_table(ctx)
+    gen = _generators(ctx)
+    per = 2000 if ctx.quick else 30000
+    nsub = 60 if ctx.quick else 500
+    _SCRATCH[0] = ctx.path("runs")
+    os.makedirs(_SCRATCH[0], exist_ok=True)
+    rs = random.Random(ctx.seed + 77)
+    stats = {t: {"runs": 0, "info": 0, "info_mismatch": 0, "nonzero": 0, "stdin": 0, "json": 0, "crash": 0} for t in TOOLS}
+    tot = {"records": 0, "sub": 0, "boundary": 0, "rejected": 0, "want": 0, "uncovered": 0, "dropped": 0}
+    outcome_classes = set()
+    accepted = []                 # a few accepted records per batch, for the self-test
+    pending = []                  # (spec, result) pairs waiting for trace validation
+    sample = None
+    batches = [(t, None) for t in TOOLS] + [("unreadable", None)]
+    for bi, (tool, _) in enumerate(batches):
+        if tool == "unreadable":
+            specs = unreadable_specs(random.Random(ctx.seed + 5), ctx.quick)
+        else:
+            specs, dropped = _build(tool, gen, random.Random(ctx.seed * 1000003 + bi), per, ctx)
+            tot["dropped"] += dropped
+        results = {}
+        for r in querycorpus.pmap(_work, [(i, s, "inproc", None) for i, s in enumerate(specs)], chunk=40):
+            results[r["idx"]] = r
+        # ---- the process boundary: a sample of the same runs as real processes
+        sub_idx = sorted(rs.sample(range(len(specs)), min(len(specs), nsub // len(TOOLS) if tool != "unreadable" else 6)))
+        sub_items = [(i, specs[i], "subproc", [e for e in results[i]["events"] if e["ph"] not in ("output", "exit")]) for i in sub_idx]
+        sub_results = {}
+        for r in querycorpus.pmap(_work, sub_items, chunk=2):
+            sub_results[r["idx"]] = r
+        tot["sub"] += len(sub_results)
+        for i, sr in sub_results.items():
+            ir = results[i]
+            same = (sr["code"] == ir["code"] and sr["lines"] == ir["lines"] and sr["doc"] == ir["doc"] and sr["touched"] == ir["touched"]
+                    and sr["result"] == ir["result"])
+            if not same and not isinstance(ir["status"], str):
+                tot["boundary"] += 1
+                ctx.violation("boundary:%s:%s" % (specs[i]["tool"], specs[i]["cls"]),
+                              _desc(specs[i], sr, "the real process gives exit %s, lines %r, document %s; the in-process run exit %s, lines %r, document %s" % (
+                                  sr["code"], sr["lines"][:4], sr["doc"], ir["code"], ir["lines"][:4], ir["doc"])),
+                              {"spec": specs[i], "how": "subproc"})
+        # ---- verdicts of the projection
+        for pool in (results, sub_results):
+            for i, r in pool.items():
+                s = specs[i]
+                st = stats[s["tool"]]
+                st["runs"] += 1
+                st["nonzero"] += r["code"] != 0
+                st["stdin"] += s["stdin"] is not None
+                st["json"] += any(n.endswith(".json") for n in s["files"])
+                st["crash"] += isinstance(r["status"], str)
+                outcome_classes.add((s["tool"], s["cls"], s["delivery"], r["code"]))
+                if s["info"]:
+                    st["info"] += 1
+                    st["info_mismatch"] += bool(r["problems"])
+                    continue
+                for kind, text in r["problems"][:1]:
+                    if isinstance(r["status"], str):
+                        kind = "crash:" + r["status"].split(":", 1)[1]
+                    ctx.violation(_sig(s, kind), _desc(s, r, text), {"spec": s, "how": r["how"]})
+        # ---- C->S: the runs are validated against YCli in batches (flush)
+        for pool in (results, sub_results):
+            for i, r in sorted(pool.items()):
+                pending.append((specs[i], r))
+        if tool == "set":
+            i = next((i for i in range(len(specs)) if not results[i]["problems"] and results[i]["code"] == 0), 0)
+            sample = {"tool": "set", "argv": specs[i]["argv"], "files": specs[i]["files"], "stdin": specs[i]["stdin"],
+                      "events": results[i]["events"], "result": results[i]["result"]}
+        del specs, results, sub_results
+        if len(pending) >= 40000:
+            _flush(ctx, pending, table, tot, accepted, rs)
+    _flush(ctx, pending, table, tot, accepted, rs)
+
+    # ---- binding self-test: corrupted records must be rejected
     corrupt = []
-    for rec in good[:60]:
+    for rec in accepted:
         for what in ("code", "lines", "via", "outcome", "drop"):
             c = json.loads(json.dumps(rec))
             c["id"] = len(corrupt)
@@ -1153,8 +1224,10 @@ def run(ctx):
                     tr[-2]["doc"] = "none" if tr[-2]["doc"] == "written" else "written"
                 elif c["tool"] == "validate" and c["o"]["noise"] == "verbose":
                     continue
+                elif c["tool"] == "validate" and c["o"]["noise"] == "default":
+                    tr[-2]["lines"] = 0 if tr[-2]["lines"] else 1
                 else:
-                    tr[-2]["lines"] = tr[-2]["lines"] + 1 if c["tool"] != "validate" or c["o"]["noise"] == "quiet" else (0 if tr[-2]["lines"] else 1)
+                    tr[-2]["lines"] += 1
             elif what == "via":
                 loads = [e for e in tr if e["ph"] == "load"]
                 if not loads:
@@ -1175,23 +1248,21 @@ def run(ctx):
         raise core.MachineryError("binding self-test: %d corrupted records were accepted, e.g. %s" % (len(missed), json.dumps(missed[0])[:600]))
 
     ctx.informational = sum(st["info"] for st in stats.values())
-    nrec = len(records)
-    sample = next((specs[i] for i in range(len(specs)) if specs[i]["tool"] == "set" and not results[i]["problems"]), specs[0])
     ctx.coverage.update({
-        "evaluations": nrec, "distinct_nontrivial": len(outcome_classes),
+        "evaluations": tot["records"], "distinct_nontrivial": len(outcome_classes),
         "rule": "one evaluation = one run of a real main() (in-process, or as a real process for the sample); runs per tool = model cases "
                 "(MC_Query / MC_Edit / MC_Merge) x delivery (file, stdin) x notation / input format / output options; non-trivial = distinct "
                 "(tool, input class, delivery, exit status) combinations observed",
-        "per_tool": stats, "subprocess_runs": len(sub_results), "boundary_mismatches": boundary_mismatch,
-        "traces_validated_against_impl": nrec, "traces_rejected": rejected, "model_outcome_vs_exit_mismatches": want_mismatch,
-        "outcome_classes_outside_emitted_table": uncovered, "table_rows": sum(len(v) for v in table.values()),
+        "per_tool": stats, "subprocess_runs": tot["sub"], "boundary_mismatches": tot["boundary"],
+        "traces_validated_against_impl": tot["records"], "traces_rejected": tot["rejected"],
+        "model_outcome_vs_exit_mismatches": tot["want"],
+        "outcome_classes_outside_emitted_table": tot["uncovered"], "table_rows": sum(len(v) for v in table.values()),
         "binding_selftest": {"corrupted_records": len(corrupt), "rejected": len(corrupt) - len(missed),
                              "fields": ["exit code", "stdout lines / result document", "delivery", "library outcome", "missing phase"]},
         "model_drift": sum(st["info_mismatch"] for st in stats.values()),
-        "validate_texts_dropped_by_ruamel_crosscheck": dropped,
+        "validate_texts_dropped_by_ruamel_crosscheck": tot["dropped"],
         "exhaustive": False,
-        "samples": [{"tool": sample["tool"], "argv": sample["argv"], "files": sample["files"], "stdin": sample["stdin"],
-                     "events": results[specs.index(sample)]["events"]}],
+        "samples": [sample] if sample else [],
         "trusted_base": ["TLC 1.8", "spec/YQuery.tla, YEdit.tla, YMerge.tla as the library-level models (C01, C03/C04, C05)",
                          "harness/absdoc.py concretise / load / abstract", "ruamel.yaml as the judge of which curated texts are invalid",
                          "Differ.get_report and search_for_paths as oracles for the entries / lines to print (the statement names them)"],
@@ -1200,6 +1271,7 @@ def run(ctx):
         "empty (null) documents are informational: yaml-get answers nothing and exits 0 there, the documentation is silent",
         "the line 'Please try --help for more information.' that ConsolePrinter.error writes to stdout is not a result line",
         "yaml-diff equality is judged for the default (position) array modes only; value / key modes redefine equality",
+        "dates, timestamps, tagged values are covered by one hand-written document; the node tables do not carry them",
     ]
     shutil.rmtree(_SCRATCH[0], ignore_errors=True)
 
@@ -1209,17 +1281,25 @@ def replay(path):
     with open(path) as fh:
         rp = json.load(fh)["replay"]
     spec = rp["spec"]
-    scratch = tempfile.mkdtemp(prefix="c16replay", dir=os.path.join(core.VERIF, "out"))
+    ctx = core.Ctx("C16_replay", "quick", 0)
+    scratch = tempfile.mkdtemp(prefix="run", dir=ctx.out)
+    how = rp.get("how", "inproc")
     try:
-        ob = execute(spec, rp.get("how", "inproc"), scratch)
+        ob = execute(spec, "inproc", scratch)
+        twin = [e for e in ob["events"] if e["ph"] not in ("output", "exit")]
+        if how == "subproc":
+            ob = execute(spec, "subproc", scratch)
         P, nlines, doc = judge(spec, ob)
     finally:
         shutil.rmtree(scratch, ignore_errors=True)
-    print("yaml-%s %s -> exit %s, lines %r" % (spec["tool"], " ".join(spec["argv"]), ob["status"], ob["lines"][:6]))
+    print("yaml-%s %s [%s] -> exit %s, lines %r" % (spec["tool"], " ".join(spec["argv"]), how, ob["status"], ob["lines"][:6]))
     for kind, text in P:
         print(kind, "::", text)
-    ev = cliobs.finish(spec["tool"], {"events": ob["events"], "status": ob["status"]}, nlines, doc)
+    ev = cliobs.finish(spec["tool"], {"events": ob["events"], "status": ob["status"]}, nlines, doc, expected=twin)
+    v = _validate_traces(ctx, [{"id": 0, "tool": spec["tool"], "o": spec["o"], "tr": ev, "code": ob["code"], "exp": spec["exp"]}], "replay")[0]
     print("events:", json.dumps(ev))
-    bad = bool(P) and not spec["info"]
+    print("YCli verdict:", json.dumps(v))
+    bad = (bool(P) and not spec["info"]) or not v["ok"] or (spec["exp"]["k"] and ob["code"] not in v["want"]
+                                                          and not (spec["tool"] == "merge" and ob["code"] in (14, 32, 42)))
     print("VIOLATION property=C16 replay=%s" % path if bad else "no violation")
     return 1 if bad else 0
